@@ -57,7 +57,7 @@ CHECKS = {
             "Images are cut at every sector/cluster boundary +-1, at structure edges and at seeded interior offsets; every reported file must be a valid WAV whose PCM is a prefix of the clean arm's file at the same path, and files wholly before the cut must be complete.",
             "Dependency sets are computed by the independent writer."),
     "C16": ("exploration", "5 C16", "seeded operation histories on one image object vs fresh object per operation",
-            "Histories of ls(valid/invalid path) and export on one opened image are compared with the same operation on a fresh image; the SimFile records any write.",
+            "Histories of ls(valid/invalid path) and export on one opened image are compared with the same operation on a fresh image; the SimFile records any write. A quarter of the AKAI/Roland histories start after the process has listed and exported another disc of identical layout and different audio, with the references computed in a forked child.",
             "History length bounded (<=12)."),
     "C19": ("exploration", "5 C19", "seeded block-split schedules into stateful filters vs one-block reference run",
             "A scheduler chooses the block boundaries fed to each real (compiled) filter; concatenated output must equal the one-block run; compositions of short signals are enumerated; saturation checked against an exact integer model.",
